@@ -31,6 +31,7 @@ import (
 	"github.com/feichai0017/NoKV/raftstore/kv"
 	"github.com/feichai0017/NoKV/raftstore/peer"
 	"github.com/feichai0017/NoKV/raftstore/store"
+	proto "google.golang.org/protobuf/proto"
 
 	"verif/harness/hlib"
 )
@@ -67,9 +68,20 @@ type netw struct {
 	held    []myraft.Message
 	// counters for the evidence
 	sent, delivered, dropped, duplicated int
+	// a trap parks the sender of every ReadIndex heartbeat of one peer inside Send (i.e. inside
+	// the reader's p.Flush()) until it is released
+	trap atomic.Pointer[sendTrap]
+}
+
+type sendTrap struct {
+	peer    uint64
+	release chan struct{}
 }
 
 func (n *netw) Send(m myraft.Message) {
+	if t := n.trap.Load(); t != nil && m.From == t.peer && m.Type == myraft.MsgHeartbeat && len(m.Context) > 0 {
+		<-t.release
+	}
 	n.mu.Lock()
 	defer n.mu.Unlock()
 	n.sent++
@@ -679,6 +691,10 @@ func parked(gid uint64) bool {
 		// queued behind a ready loop that is held at a gate (only while a gate exists)
 		return strings.Contains(body, "peer.(*Peer).processReady")
 	}
+	if strings.HasPrefix(state, "chan receive") {
+		l := strings.Split(body, "\n")
+		return len(l) > 1 && strings.Contains(l[1], "main.(*netw).Send") // held by a send trap
+	}
 	if !strings.HasPrefix(state, "select") {
 		return false
 	}
@@ -828,6 +844,10 @@ func (k *kit) launch(kind string, s int, region uint64, tag int, req *pb.RaftCmd
 	c := &call{w: len(k.calls) + 1, kind: kind, store: s, region: region, tag: tag, done: make(chan struct{})}
 	c.req = req
 	c.state = k.raftState(region, s)
+	if validRegion(region) && k.peers[peerID(region, s)] == nil && strings.HasSuffix(inputs, " 1") {
+		inputs = strings.TrimSuffix(inputs, "1") + "0" // the store no longer hosts a peer of the region
+		register = false
+	}
 	k.mu.Lock()
 	k.calls = append(k.calls, c)
 	k.mu.Unlock()
@@ -900,6 +920,9 @@ func (k *kit) launch(kind string, s int, region uint64, tag int, req *pb.RaftCmd
 // the leader's confirmed commit index back), WaitApplied(index), then the local state machine.
 // It is the direct test of "WaitApplied returns only when the replica has applied the index".
 func (k *kit) replicaRead(s int, region uint64) *call {
+	if k.peers[peerID(region, s)] == nil {
+		return nil
+	}
 	c := &call{w: len(k.calls) + 1, kind: "read", store: s, region: region, done: make(chan struct{})}
 	c.req = readReq(k.regKey(region), region)
 	c.state = k.raftState(region, s)
@@ -910,6 +933,9 @@ func (k *kit) replicaRead(s int, region uint64) *call {
 	k.event(fmt.Sprintf("r.begin %d %d %d", s, region, c.w), "ok")
 	k.mu.Unlock()
 	p := k.peers[peerID(region, s)]
+	if p == nil {
+		return nil
+	}
 	apply := k.applier(s)
 	ready := make(chan struct{})
 	go func() {
@@ -937,6 +963,49 @@ func (k *kit) replicaRead(s int, region uint64) *call {
 	k.settle(c)
 	k.collect()
 	return c
+}
+
+// stopRead issues n reads on store s and stops the region's peer while every one of them is
+// inside p.Flush() of LinearizableRead (parked in the transport, which the harness owns): when
+// they come out, their read channel is closed and the stop context is cancelled at the same
+// time.  Each of them must end in an error; n of them make a 1-in-2 select outcome show.
+func (k *kit) stopRead(s int, region uint64, n int) {
+	pid := peerID(region, s)
+	if k.peers[pid] == nil {
+		return
+	}
+	t := &sendTrap{peer: pid, release: make(chan struct{})}
+	k.net.trap.Store(t)
+	var cs []*call
+	for i := 0; i < n; i++ {
+		cs = append(cs, k.start("read", s, region, 0))
+	}
+	k.net.trap.Store(nil)
+	k.stores[s].StopPeer(pid)
+	delete(k.peers, pid)
+	close(t.release)
+	for _, c := range cs {
+		if !c.settled {
+			k.waitDone(c)
+		}
+	}
+	k.collect()
+}
+
+// admin proposes an admin entry (a command type no store acts on, so the region metadata stays
+// as it is) through the raft log of the region: handleReady must route it past the applier
+// without disturbing the command entries around it.
+func (k *kit) admin(s int, region uint64) {
+	p := k.peers[peerID(region, s)]
+	if p == nil {
+		return
+	}
+	data, err := proto.Marshal(&pb.AdminCommand{Type: pb.AdminCommand_Type(77)})
+	if err != nil || len(data) == 0 {
+		panic("admin entry does not encode")
+	}
+	k.runOn(s, func() { _ = p.ProposeAdmin(data) })
+	k.collect()
 }
 
 // collect reports every call that has returned since the last look.
@@ -1080,6 +1149,9 @@ func (k *kit) elect(r uint64) {
 			k.net.mu.Unlock()
 			if !cut {
 				p := k.peers[peerID(r, s)]
+				if p == nil {
+					continue
+				}
 				k.runOn(s, func() { _ = p.Tick() })
 				k.collect()
 			}
